@@ -35,6 +35,9 @@ def exec_ob(kind):
         "expect_min": 8,
         "timeout": 1200,
         "weight": 2,
+        "replay": {"prog": "replay_exec.cpp", "sources": ["src/bytecode_machine.cpp", "src/reciprocal.c", "src/instructions_portable.cpp"],
+                   "flags": ["-O1", "-frounding-math", "-I/verif/suites/common"],
+                   "vars": ["instr", "i", "mode", "flags", "nreg", "m4", "frac22", "bm"], "skip": r"\.i\.u\d+"},
     }
 
 
